@@ -1,13 +1,21 @@
 use std::io::Write;
 
+/// The LPT1 device of the shipped interpreter.
+///
+/// There is no printer device to write to yet: a write fails with an I/O error,
+/// which reaches the program as "Device I/O error" (57) and can be trapped with
+/// ON ERROR, instead of aborting the interpreter.
 pub struct Lpt1Write {}
 
 impl Write for Lpt1Write {
     fn write(&mut self, _buf: &[u8]) -> std::io::Result<usize> {
-        unimplemented!()
+        Err(std::io::Error::new(
+            std::io::ErrorKind::Unsupported,
+            "LPT1: device unavailable",
+        ))
     }
 
     fn flush(&mut self) -> std::io::Result<()> {
-        unimplemented!()
+        Ok(())
     }
 }
